@@ -61,6 +61,15 @@ type Case struct {
 		WithProv    bool `json:"withProv"`
 		WithoutProv bool `json:"withoutProv"`
 	} `json:"pull"`
+	History []struct {
+		First    string `json:"first"`
+		Verdicts []bool `json:"verdicts"`
+	} `json:"history"`
+	Locate []struct {
+		Verify bool `json:"verify"`
+		Repo   bool `json:"repo"`
+		OK     bool `json:"ok"`
+	} `json:"locate"`
 	Deps []struct {
 		Order    []string `json:"order"`
 		Strategy string   `json:"strategy"`
@@ -234,6 +243,9 @@ func sha(b []byte) string {
 
 var digestRe = regexp.MustCompile(`sha256:[0-9a-f]{64}`)
 
+// the line of the files section that records the archive: "  name.tgz: value"
+var filesLineRe = regexp.MustCompile(`(?mi)^(\s+\S+\.tgz:)[^\n]*$`)
+
 // semanticSigOffsets: byte offsets of the decoded signature packet whose change alters the signature
 // semantically: version, type, algorithms, hashed subpackets, hash tag and the signature value.  The
 // packet length header, the unhashed subpackets and the bit-length prefix of the value are left out
@@ -395,10 +407,32 @@ func (w *world) apply(c *concrete, act string, m int) error {
 		}
 		c.muts = append(c.muts, fmt.Sprintf("signed text byte %d: %q -> %q", i-lo, c.prov[i], np[i]))
 		c.prov = np
+	case "SignEmpty", "SignTail", "SignHead", "SignNoMarker":
+		// a validly signed message (signer's own key) whose entry for the archive is not its digest
+		full := sha(c.archive)
+		val := map[string]string{"SignEmpty": "", "SignTail": full[56:], "SignHead": "sha256:" + full[:16], "SignNoMarker": full}[act]
+		d := decode(c.prov)
+		if !d.ok {
+			return fmt.Errorf("provenance does not decode")
+		}
+		plain := filesLineRe.ReplaceAll(d.plain, []byte("${1} \""+val+"\""))
+		var out bytes.Buffer
+		ew, err := clearsign.Encode(&out, w.keys["signer"].PrivateKey, pgpConfig)
+		if err != nil {
+			return err
+		}
+		ew.Write(plain)
+		if err := ew.Close(); err != nil {
+			return err
+		}
+		c.prov = out.Bytes()
+		c.muts = append(c.muts, fmt.Sprintf("signer signed a message that records %q for the archive", val))
 	case "BreakDigest":
 		loc := digestRe.FindIndex(c.prov)
-		if loc == nil {
-			return fmt.Errorf("no digest")
+		if loc == nil { // a crafted entry: put some other digest there
+			c.prov = filesLineRe.ReplaceAll(c.prov, []byte(fmt.Sprintf("${1} sha256:%064x", w.rng.Int63())))
+			c.muts = append(c.muts, "entry for the archive set to an unrelated digest")
+			break
 		}
 		i := loc[0] + 7 + pick(64)
 		np := append([]byte(nil), c.prov...)
@@ -412,7 +446,7 @@ func (w *world) apply(c *concrete, act string, m int) error {
 		c.muts = append(c.muts, fmt.Sprintf("digest hex digit %d changed", i-loc[0]-7))
 		c.prov = np
 	case "FixDigest":
-		c.prov = digestRe.ReplaceAll(c.prov, []byte("sha256:"+sha(c.archive)))
+		c.prov = filesLineRe.ReplaceAll(c.prov, []byte("${1} sha256:"+sha(c.archive)))
 		c.muts = append(c.muts, "digest in the signed text set to the archive's")
 	case "FixName":
 		re := regexp.MustCompile(`(?mi)^(\s+)(\S+\.tgz):`)
@@ -469,6 +503,7 @@ func guard(f func() error) (err error, pan string) {
 }
 
 type runner struct {
+	histN   int
 	srv     *fileServer
 	allBits bool
 	seed    int64
@@ -614,6 +649,41 @@ func (r *runner) verdicts(cs Case, rep int, c *concrete, wide bool) {
 				}, false)
 		}
 	}
+	// the keyring file rewritten between two verifications through the same path
+	for hi, h := range cs.History {
+		if h.First == cs.Ring || len(h.Verdicts) != 2 {
+			continue
+		}
+		r.histN++
+		P := filepath.Join(r.work, fmt.Sprintf("keyring-%d-%d.gpg", cs.ID, r.histN))
+		for step, ringName := range []string{h.First, cs.Ring} {
+			step, ringName := step, ringName
+			b, _ := os.ReadFile(r.w.ringFile[ringName])
+			os.WriteFile(P, b, 0o644)
+			record(fmt.Sprintf("VerifyChart/history/%s->%s/step%d", h.First, cs.Ring, step+1), h.Verdicts[step],
+				func() (*provenance.Verification, error) { return downloader.VerifyChart(p, P) }, false)
+		}
+		os.Remove(P)
+		_ = hi
+	}
+	// install / template / show --verify --repo <url>: the chart is looked up in the repository's index and downloaded
+	for _, lc := range cs.Locate {
+		lc := lc
+		record(fmt.Sprintf("LocateChart/repo/verify=%v", lc.Verify), lc.OK, func() (*provenance.Verification, error) {
+			ix := repo.NewIndexFile()
+			ix.MustAdd(&chart.Metadata{APIVersion: "v2", Name: "mychart", Version: r.w.version}, c.name, "", "")
+			ib, _ := yaml.Marshal(ix)
+			r.srv.set(map[string][]byte{"/repo/index.yaml": ib, "/repo/" + c.name: c.archive, "/repo/" + c.name + ".prov": c.prov}, nil)
+			st := cli.New()
+			st.RepositoryConfig = filepath.Join(r.work, "no-repositories.yaml")
+			st.RepositoryCache = filepath.Join(r.work, "locate-cache")
+			st.PluginsDirectory = filepath.Join(r.work, "no-plugins")
+			os.RemoveAll(st.RepositoryCache)
+			cpo := action.ChartPathOptions{RepoURL: r.srv.url + "/repo", Verify: lc.Verify, Keyring: ring}
+			_, err := cpo.LocateChart("mychart", st)
+			return nil, err
+		}, false)
+	}
 	// helm dependency update with verification required: this chart and an untampered neighbour, in either order
 	for _, dp := range cs.Deps {
 		dp := dp
@@ -735,7 +805,7 @@ func (r *runner) singleSet(act string, full bool, c *concrete) []int {
 	}
 	if !full {
 		switch act {
-		case "Rename", "FixDigest", "FixName", "SwapSig":
+		case "Rename", "FixDigest", "FixName", "SwapSig", "SignEmpty", "SignTail", "SignHead", "SignNoMarker":
 			return []int{0}
 		case "RenameCase":
 			return []int{0, 1, 2}
@@ -898,6 +968,7 @@ func cmdRun(args []string) error {
 	r := &runner{allBits: *allBits, seed: *seed, w: w, out: bufio.NewWriterSize(out, 1<<20), work: filepath.Join(*tmp, "work")}
 	defer r.out.Flush()
 	os.MkdirAll(r.work, 0o755)
+	os.Setenv("HELM_CACHE_HOME", filepath.Join(*tmp, "helm-cache")) // FindChartInRepoURL keeps the fetched index there
 	if r.srv, err = startFileServer(); err != nil {
 		return err
 	}
